@@ -149,7 +149,15 @@ int main(int argc, char** argv)
         o.prio_minus = false; o.prio_next = false;
         o.n_only_when_empty = true; o.child_outs = 1;
         o.depth_quick = 3; o.depth_thorough = 4;
-        if (vx::thorough()) { o.prio_minus = true; o.child_outs = 2; o.depth_thorough = 4; o.thr = "abcde"; o.thr_rb = "bcde"; o.thr_sb = "bcde"; o.thr_pr = "cdeh"; o.classes.insert("J"); }
-        return ps::Configs{{"", o}};
+        if (!vx::thorough()) return ps::Configs{{"", o}};
+        // thorough: (a) the quick menu one level deeper, (b) every threshold, both child outputs, -delta and cluster joins at depth 3
+        ps::Opts deep = o;
+        deep.depth_thorough = 4;
+        ps::Opts rich = o;
+        rich.depth_thorough = 3;
+        rich.prio_minus = true; rich.child_outs = 2;
+        rich.thr = "abcde"; rich.thr_rb = "bcde"; rich.thr_sb = "bcde"; rich.thr_pr = "cdeh";
+        rich.classes.insert("J");
+        return ps::Configs{{"_deep", deep}, {"_rich", rich}};
     }, mon);
 }
